@@ -4,8 +4,8 @@
 P=$1
 cd ${SEEDROOT:-/tmp/seed}/$P || exit 2
 export CARGO_NET_OFFLINE=true
-# one shared target directory for the test-suite runs of all worktrees (dependencies are built once; disk)
-export CARGO_TARGET_DIR=${SEEDROOT:-/tmp/seed}/_target
+# the worktree's own target directory (a directory shared between parallel worktrees made test binaries overwrite each other)
+export CARGO_TARGET_DIR=${SEEDROOT:-/tmp/seed}/$P/target
 git checkout -q -- . 2>/dev/null
 for N in 1 2; do
   R=out/confirm_$N.txt
